@@ -213,13 +213,10 @@ use fbh::prng::Rng;
 use fbh::report::{guarded, Report};
 use fbh::Ctx;
 
-fn has_cldc_stack_map(c: &raw::RawClass) -> bool {
-	c.methods.iter().any(|m| m.attributes.iter().any(|a| match &a.info { raw::AttrInfo::Code(code) => code.attributes.iter().any(|x| x.name == "StackMap"), _ => false }))
-}
-
 /// one class file -> a CFile case (duke's answer beside the bytes); false if it could not be printed
 pub fn file_case(r: &mut Report, stream: &str, bytes: &[u8]) -> bool {
 	let b = bytes.to_vec();
+	crate::streams::crumb_class(bytes);
 	let got = guarded(move || duke::read_class(&mut std::io::Cursor::new(b)).ok().map(|c| class_desc(&c)));
 	match got {
 		Err(_) => { r.count("cfile_panic_not_compared"); false }
@@ -236,7 +233,6 @@ pub fn stream_files(ctx: &Ctx, r: &mut Report, rng: &mut Rng) {
 	classes.sort_by_key(|(p, b)| (!p.starts_with("regress/"), b.len()));
 	for (path, bytes) in &classes {
 		if bytes.len() > 12_000 || bytes.len() > budget { continue; }
-		if let Ok(rc) = raw::parse(bytes) { if has_cldc_stack_map(&rc) { r.count("cfile_skipped_cldc_stackmap"); continue; } }
 		let _ = path;
 		if file_case(r, "file-corpus", bytes) { budget -= bytes.len(); }
 	}
@@ -249,7 +245,6 @@ pub fn stream_files(ctx: &Ctx, r: &mut Report, rng: &mut Rng) {
 		for &ki in &picks {
 			let Ok(bytes) = try_assemble(&spec, &fam[ki]) else { continue };
 			if bytes.len() > 12_000 { continue; }
-			if let Ok(rc) = raw::parse(&bytes) { if has_cldc_stack_map(&rc) { continue; } }
 			file_case(r, "file-generated", &bytes);
 		}
 	}
@@ -332,6 +327,38 @@ pub fn stream_nesting(r: &mut Report) {
 		}
 		file_case(r, "file-nesting", &bytes);
 	}
+	// annotations nested in annotations, and annotations alternating with arrays, around the limit: where duke accepts,
+	// the facts must be the file's; accepted or refused, the model must answer as duke (CFile)
+	for kind in 1..=2usize {
+		for depth in [1usize, 32, 62, 63, 64, 65, 66] {
+			let mut v = ElementValueFacts::Int(7);
+			for d in 0..depth {
+				v = if kind == 1 || d % 2 == 0 { ElementValueFacts::Annotation(AnnotationFacts { type_desc: JStr::new("LB;"), pairs: vec![(JStr::new("w"), v)] }) } else { ElementValueFacts::Array(vec![v]) };
+			}
+			let mut spec: ClassSpec = ClassG::new(61, 0x0021, "p/N", Some("java/lang/Object"));
+			spec.visible_annotations.push(AnnotationFacts { type_desc: JStr::new("LA;"), pairs: vec![(JStr::new("v"), v.clone())] });
+			let mut m = MethodG::new(0x0401, "d", "()LB;");
+			m.annotation_default = Some(v);
+			spec.methods.push(m);
+			let Ok(bytes) = try_assemble(&spec, &Knobs::default()) else { r.count("nesting_not_assemblable"); continue };
+			r.eval(&format!("nesting:{kind}:{depth}"), true);
+			let truth = facts_of_spec(&spec).with_defined_access_bits();
+			let what = format!("an annotation value nested {depth} deep ({})", if kind == 1 { "annotations in annotations" } else { "annotations alternating with arrays" });
+			match crate::fstreams::duke_read(&bytes) {
+				crate::fstreams::Read::Panic(p) => r.violation(format!("{what}: read_class panicked: {p}"), format!("property C01\nwhat: {what} panics\nclass file (hex): {}\n", crate::streams::hex(&bytes))),
+				crate::fstreams::Read::Err(e) => {
+					if depth <= 32 { r.violation(format!("{what} is rejected: {e}"), format!("property C01\nwhat: {what} (far within the limit of 64) is rejected: {e}\nclass file (hex): {}\n", crate::streams::hex(&bytes))); }
+					r.count(&format!("nesting_kind{kind}_depth{depth}_refused"));
+				}
+				crate::fstreams::Read::Ok(c) => {
+					r.count(&format!("nesting_kind{kind}_depth{depth}_read"));
+					let got = facts_from_duke(&c);
+					if got != truth { r.violation(format!("{what}: {}", truth.diff(&got).join(" | ")), format!("property C01\nwhat: {what} is not delivered as written\nclass file (hex): {}\n", crate::streams::hex(&bytes))); }
+				}
+			}
+			file_case(r, "file-nesting", &bytes);
+		}
+	}
 }
 
 /// outside the hypotheses: damaged files (no oracle: these are not well-formed class files)
@@ -354,10 +381,50 @@ pub fn stream_damaged(ctx: &Ctx, r: &mut Report, rng: &mut Rng) {
 		r.eval(&crate::streams::hex(&b), true);
 		r.count(&format!("damaged_kind{kind}"));
 		let b2 = b.clone();
+		crate::streams::crumb_class(&b);
 		match guarded(move || duke::read_class(&mut std::io::Cursor::new(b2)).ok().map(|c| class_desc(&c))) {
 			Err(_) => r.count("damaged_panic_not_compared"),
 			Ok(None) => { r.count("damaged_duke_err"); r.case("file-damaged", format!("CFileM {} Err", packed(&b))); }
 			Ok(Some(d)) => { r.count("damaged_duke_ok"); r.case("file-damaged", format!("CFileM {} (Ok {d})", packed(&b))); }
+		}
+	}
+}
+
+/// Every annotation attribute kind at every location that can carry one, alone and all four together, each with an
+/// annotation type of its own: Runtime{Visible,Invisible}{,Type}Annotations x {class, field, method, record component}.
+/// (A reader that files one kind under another location's or another kind's list delivers facts the file does not state.)
+pub fn stream_annotation_matrix(r: &mut Report) {
+	use fbh::classfile::asm::{facts_of_spec, ClassSpec};
+	const KINDS: [&str; 4] = ["RuntimeVisibleAnnotations", "RuntimeInvisibleAnnotations", "RuntimeVisibleTypeAnnotations", "RuntimeInvisibleTypeAnnotations"];
+	const LOCS: [&str; 4] = ["class", "field", "method", "record component"];
+	for loc in 0..4usize {
+		for sel in 0..5usize {
+			let ann = |k: usize| AnnotationFacts { type_desc: JStr::new(&format!("Lp/A{loc}{k};")), pairs: vec![(JStr::new("v"), ElementValueFacts::Int((10 * loc + k) as i32))] };
+			let target = match loc { 0 => TargetFacts::Supertype(65535), 2 => TargetFacts::Return, _ => TargetFacts::Field };
+			let tann = |k: usize| TypeAnnotationFacts { target, path: vec![], annotation: ann(k) };
+			let on = |k: usize| sel == 4 || sel == k;
+			let va: Vec<AnnotationFacts> = if on(0) { vec![ann(0)] } else { vec![] };
+			let ia: Vec<AnnotationFacts> = if on(1) { vec![ann(1)] } else { vec![] };
+			let vta: Vec<TypeAnnotationFacts> = if on(2) { vec![tann(2)] } else { vec![] };
+			let ita: Vec<TypeAnnotationFacts> = if on(3) { vec![tann(3)] } else { vec![] };
+			let mut spec: ClassSpec = ClassG::new(61, 0x0031, "p/R", Some(if loc == 3 { "java/lang/Record" } else { "java/lang/Object" }));
+			match loc {
+				0 => { spec.visible_annotations = va; spec.invisible_annotations = ia; spec.visible_type_annotations = vta; spec.invisible_type_annotations = ita; }
+				1 => { let mut f = FieldFacts::new(0x0012, "x", "I"); f.visible_annotations = va; f.invisible_annotations = ia; f.visible_type_annotations = vta; f.invisible_type_annotations = ita; spec.fields.push(f); }
+				2 => { let mut m = MethodG::new(0x0401, "x", "()I"); m.visible_annotations = va; m.invisible_annotations = ia; m.visible_type_annotations = vta; m.invisible_type_annotations = ita; spec.methods.push(m); }
+				_ => { let mut c = RecordComponentFacts::new("x", "I"); c.visible_annotations = va; c.invisible_annotations = ia; c.visible_type_annotations = vta; c.invisible_type_annotations = ita; spec.record = Some(vec![c, RecordComponentFacts::new("y", "J")]); }
+			}
+			let what = format!("{} carrying {}", LOCS[loc], if sel == 4 { "all four annotation attributes".to_string() } else { format!("only {}", KINDS[sel]) });
+			let Ok(bytes) = try_assemble(&spec, &Knobs::default()) else { r.count("annotation_matrix_not_assemblable"); continue };
+			r.eval(&format!("annotation-matrix:{loc}:{sel}"), true);
+			r.count("annotation_matrix_classes");
+			let truth = facts_of_spec(&spec);
+			match crate::fstreams::duke_read(&bytes) {
+				crate::fstreams::Read::Panic(p) => r.violation(format!("{what}: read_class panicked: {p}"), format!("property C01\nwhat: {what}: read_class panics\nclass file (hex): {}\n", crate::streams::hex(&bytes))),
+				crate::fstreams::Read::Err(e) => r.violation(format!("{what}: read_class rejects a valid class: {e}"), format!("property C01\nwhat: {what}: read_class returns Err: {e}\nclass file (hex): {}\n", crate::streams::hex(&bytes))),
+				crate::fstreams::Read::Ok(c) => crate::fstreams::compare(r, &what, &bytes, &truth, &facts_from_duke(&c)),
+			}
+			file_case(r, "file-annotation-matrix", &bytes);
 		}
 	}
 }
